@@ -297,4 +297,55 @@ theorem natOfBytes_minBE (n : Nat) : natOfBytes (minBE n) = n := by
 
 theorem natOfBytes_zero32 : natOfBytes zero32 = 0 := by decide
 
+/-! ### SortitionManager cache -/
+
+/-- every stored view sits under the slot of the inputs it was computed for, and those have a uint64 round -/
+def Mgr.Inv (m : Mgr) : Prop := ∀ e, e ∈ m.cache → e.1 = slotOf e.2 ∧ e.2.round < 2 ^ 64
+
+theorem slotOf_inj {a b : MKey} (ha : a.round < 2 ^ 64) (hb : b.round < 2 ^ 64) (h : slotOf a = slotOf b) : a = b := by
+  unfold slotOf at h
+  simp only [Prod.mk.injEq] at h
+  obtain ⟨h1, h2, h3⟩ := h
+  rw [Nat.mod_eq_of_lt ha, Nat.mod_eq_of_lt hb] at h1
+  cases a; cases b; simp_all
+
+theorem Mgr.query_spec (m : Mgr) (hinv : m.Inv) (k : MKey) (hk : k.round < 2 ^ 64) (st : Bool) :
+    (m.query k st).2 = k ∧ (m.query k st).1.Inv := by
+  unfold Mgr.query
+  cases hl : m.lookup k with
+  | some o =>
+    simp only []
+    refine ⟨?_, hinv⟩
+    unfold Mgr.lookup at hl
+    cases hf : m.cache.find? (fun e => decide (e.1 = slotOf k)) with
+    | none => simp [hf] at hl
+    | some e =>
+      simp only [hf, Option.map_some, Option.some.injEq] at hl
+      have hmem := List.mem_of_find?_eq_some hf
+      have hp := List.find?_some hf
+      simp only [decide_eq_true_eq] at hp
+      have := hinv e hmem
+      subst hl
+      exact slotOf_inj this.2 hk (by rw [← this.1, hp])
+  | none =>
+    simp only []
+    refine ⟨trivial, ?_⟩
+    cases st with
+    | false => simpa using hinv
+    | true =>
+      simp only [if_true]
+      intro e he
+      simp only [List.mem_cons] at he
+      rcases he with rfl | he
+      · exact ⟨rfl, hk⟩
+      · exact hinv e he
+
+theorem Mgr.clear_inv (m : Mgr) (hinv : m.Inv) (r : Nat) : (m.clear r).Inv := by
+  unfold Mgr.clear
+  by_cases h : r = m.round
+  · simpa [h] using hinv
+  · simp only [h, if_false]
+    intro e he
+    simp at he
+
 end YouVerif.C04
